@@ -88,7 +88,11 @@ func PrecommitContent(h uint64, r uint32, hash string) []byte {
 // HashScheme: the block hash of a header either equals the claimed hash or not,
 // decided by the uninterpreted predicate hashok(claimed hash, height); validator
 // hashes are short concrete digests of key ids / the number of powers.
-type HashScheme struct{}
+type HashScheme struct {
+	// PowerSensitive makes VotePowers depend on the low byte of every power (concrete powers
+	// only), so that a validator list can be checked against its hash.
+	PowerSensitive bool
+}
 
 func (HashScheme) Block(h tmconsensus.Header) ([]byte, error) {
 	if verifrt.UFBool("hashok", Pack(h.Hash), h.Height) {
@@ -106,17 +110,28 @@ func (HashScheme) PubKeys(keys []gcrypto.PubKey) ([]byte, error) {
 	return out, nil
 }
 
-func (HashScheme) VotePowers(pows []uint64) ([]byte, error) {
-	return []byte{'v', 'p', byte(len(pows))}, nil
+func (hs HashScheme) VotePowers(pows []uint64) ([]byte, error) {
+	out := []byte{'v', 'p', byte(len(pows))}
+	if hs.PowerSensitive {
+		for _, p := range pows {
+			out = append(out, byte(p))
+		}
+	}
+	return out, nil
 }
 
 // ValSet builds a validator set over the given keys and powers.
 func ValSet(keys []gcrypto.PubKey, pows []uint64) tmconsensus.ValidatorSet {
+	return ValSetHS(keys, pows, HashScheme{})
+}
+
+// ValSetHS is ValSet with an explicit hash scheme.
+func ValSetHS(keys []gcrypto.PubKey, pows []uint64, hs HashScheme) tmconsensus.ValidatorSet {
 	vals := make([]tmconsensus.Validator, len(keys))
 	for i := range keys {
 		vals[i] = tmconsensus.Validator{PubKey: keys[i], Power: pows[i]}
 	}
-	vs, err := tmconsensus.NewValidatorSet(vals, HashScheme{})
+	vs, err := tmconsensus.NewValidatorSet(vals, hs)
 	if err != nil {
 		panic(err)
 	}
